@@ -19,14 +19,20 @@ pub struct IntraInfo {
 
 /// Decode a valid intra picture with a fresh decoder and compare with the reference model.
 pub fn check_intra(pic: &Pic) -> Result<IntraInfo, String> {
+    let mut st = H263State::new(options_scal(pic.hdr.mode, pic.hdr.tr % 2 == 1));
+    check_intra_on(pic, &mut st)
+}
+
+/// As `check_intra`, on a decoder that may already have a history.
+pub fn check_intra_on(pic: &Pic, st: &mut H263State) -> Result<IntraInfo, String> {
     let model = reconstruct(pic, None).map_err(|e| format!("HARNESS: generator produced an invalid intra picture: {}", e))?;
     let bytes = encode_pic(pic);
-    let mut st = H263State::new(options_scal(pic.hdr.mode, pic.hdr.tr % 2 == 1));
-    match decode_bytes(&mut st, &bytes) {
+    let st = &mut *st;
+    match decode_bytes(st, &bytes) {
         Outcome::Ok => {}
         o => return Err(format!("valid intra picture ({} {:?} q{}) was not decoded: {}", mode_label(&pic.hdr), pic.hdr.size, pic.hdr.quant, o.short())),
     }
-    let c = compare_last(&st, &model.expect)?;
+    let c = compare_last(st, &model.expect)?;
     Ok(IntraInfo {
         tolerated: c.tolerated,
         stats: model.stats,
@@ -35,9 +41,21 @@ pub fn check_intra(pic: &Pic) -> Result<IntraInfo, String> {
 }
 
 fn intra_case(g: &mut Gen, cfg: &PicCfg) -> Verdict {
-    let pic = gen_intra_pic(g, cfg);
+    let (mode, version) = gen_mode(g, cfg);
+    // a third of the pictures are decoded by a decoder that has already seen other data (drawn
+    // first, so that large pictures get an earlier history as often as small ones)
+    let scal = g.bool();
+    let mut st = H263State::new(options_scal(mode, scal));
+    let pre = if g.chance(1, 3) {
+        let small = PicCfg { max_dim: 48, max_fixed_mbs: 48, budget: 250, extreme_aspect: false, ..*cfg };
+        prehistory(g, &mut st, mode, version, &small)
+    } else {
+        Vec::new()
+    };
+    let size = gen_size(g, mode, cfg);
+    let pic = gen_intra_pic_with(g, cfg, mode, version, size);
     g.describe(|| describe_pic(&pic));
-    match check_intra(&pic) {
+    match check_intra_on(&pic, &mut st).map_err(|m| if pre.is_empty() { m } else { format!("(on a decoder with an earlier history) {}", m) }) {
         Err(m) => {
             if m.starts_with("HARNESS") {
                 // a generator bug must never be reported as a violation of the code
@@ -47,6 +65,7 @@ fn intra_case(g: &mut Gen, cfg: &PicCfg) -> Verdict {
         }
         Ok(info) => {
             let mut l: Labels = vec![mode_label(&pic.hdr), size_label(&pic.hdr)];
+            l.extend(pre.iter().copied());
             if info.stats.escapes > 0 {
                 l.push("has escapes");
             }
